@@ -686,6 +686,26 @@ def execute(built, values, instrument=False):
     return (obs, ids) if instrument else out
 
 
+def execute_as_script(built, values, timeout=60):
+    """Run the main module as a script of its own (`python main.py`): its module frame is then the bottom-most frame of
+    the interpreter's stack, which no in-process execution can arrange.  Only for single-module configurations."""
+    import subprocess
+    import tempfile
+
+    repo = os.environ.get("PYPRED_REPO", "/repo")
+    with tempfile.TemporaryDirectory(prefix="c16script_") as d:
+        path = os.path.join(d, built["main"] + ".py")
+        head = "import json as _json\n_vals = " + repr([v[0] for v in values]) + "\n_out = []\n"
+        tail = "\nprint(_json.dumps([[c, (r if isinstance(r, (bool, str)) else repr(r))] for c, r in _out]))\n"
+        with open(path, "w", encoding="utf-8") as f:
+            f.write(head + built["sources"][built["main"]] + tail)
+        env = dict(os.environ, PYTHONPATH=repo, PYTHONDONTWRITEBYTECODE="1")
+        p = subprocess.run(["/venv/bin/python", path], capture_output=True, text=True, timeout=timeout, env=env, cwd=d)
+    if p.returncode != 0:
+        raise HarnessError(f"script run of a generated module failed: {p.stderr[-600:]}")
+    return [(c, r) for c, r in json.loads(p.stdout.strip().split("\n")[-1])]
+
+
 def canon(r):
     if r is True:
         return "T"
@@ -1019,6 +1039,36 @@ def main(tier):
                 if r != e:
                     fails.append((k, cfg, b, ci, pos, e, r))
     chk.add_corr("scope/evalRec", n_calls, dis, note=f"{len(configs)} generated scope configurations")
+    # -- the same module-level configurations run as scripts of their own (module frame = bottom of the stack)
+    sdis, s_calls, s_cfgs = [], 0, 0
+    want_scripts = 14 if tier == "quick" else 80
+    for (k, cfg, b), ans in zip(configs, answers):
+        if s_cfgs >= want_scripts:
+            break
+        if cfg["where"] != "module" or len(b["sources"]) != 1:
+            continue
+        try:
+            vals_ok = all(eval(repr(v[0]), {"__builtins__": {}}) == v[0] for v in cfg["values"])  # noqa: S307
+        except Exception:  # noqa: BLE001
+            vals_ok = False
+        if not vals_ok:
+            continue
+        s_cfgs += 1
+        sreal = dict(execute_as_script(b, cfg["values"]))
+        model = ans.split()
+        expect = quantifier(cfg, b, lib)
+        for pos, ci in enumerate(b["order"]):
+            s_calls += 1
+            r = canon(sreal.get(ci, "missing"))
+            if r != model[pos]:
+                sdis.append({"config": k, "call": cfg["calls"][ci][2], "value": repr(cfg["values"][cfg["calls"][ci][3]][0]), "model": model[pos], "as_script": r, **describe(cfg, b)})
+            e = expect[ci]
+            if e is not None and r != e:
+                chk.add_failure({"configuration": cfg.get("title", "generated") + " (run as a script)", "main": b["main"], "call_index": ci, "values": [repr(v[0]) for v in cfg["values"]],
+                                 "target": cfg["calls"][ci][2], "value": repr(cfg["values"][cfg["calls"][ci][3]][0]), "sources": b["sources"], "as_script": True},
+                                {"expected": e, "got": r, "where": "module, run as __main__ script"}, None)
+    chk.add_corr("scope/as-script", s_calls, sdis, note=f"{s_cfgs} module-level configurations executed with `python main.py` (bottom-most frame = the module)")
+    chk.evaluations += s_calls
     chk.evaluations += n_calls + lay_cases
     # -- classify the property failures: which single repair (model flag) makes the model give the demanded answer
     fail_tab = {}
